@@ -10,7 +10,7 @@ NO_MSGS = ["No dependencies", "No exports", "No bindings", "No functions", "No i
 #   uasm-marker-in-text:<MARKER> (0f91cb1), uasm-test-assert-count-lost (69a2f06), uasm-string-reads-as-number:<s> (6da1960),
 #   uasm-complex-nonfinite (c00f690), uasm-float-not-roundtrip (41a5003), uasm-nan-sign-lost (1df8995),
 #   uasm-read-panics:<mutation>:<msg> (c00f690), uasm-reread-marks-wrong / uasm-reread-constant-malformed / uasm-reread-constant-count,
-#   uasm-reread-value-marks-wrong, uasm-read-fails:<msg>, uasm-write-panics:<msg>, uasm-run-differs:<kind>:<program>, uasm-map-layout-differs
+#   uasm-reread-value-marks-wrong, uasm-value-meta-roundtrip-wrong, uasm-one-row-box-map-reads-as-list (OPEN: known finding C17-one-row-box-map), uasm-read-fails:<msg>, uasm-write-panics:<msg>, uasm-run-differs:<kind>:<program>, uasm-map-layout-differs
 
 
 def coq_text(s):
@@ -100,12 +100,12 @@ def run(r):
         "searching / comparing a text by code points equals doing it by UTF-8 bytes",
         "the per-line parsers of from_uasm other than values (nodes, spans, bindings, dependency/export lines, index/code macro payloads, file and macro-expansion lines) are not modelled: covered by the round-trip-and-run search and by the never-panics mutation stream only",
         "uiua's own Node equality (hash based), Value equality / ordering (C15) and Value::show are used to compare re-read trees, run results and rows; uiua::verif::check_value and ::flags (hooks) are used to judge re-read constants",
-        "labels and map keys are modelled at the top level of a value only and tied, not proved; ArrayRep::Full carrying a MapKeys struct (label together with keys, or raw hash tables with tombstones) is covered by the search (directed family) only",
+        "labels and map keys are modelled at the top level of a value only (proved: C17_label_json_roundtrip, C17_map_json_roundtrip; labels / keys nested inside boxes are not modelled); ArrayRep::Full carrying a MapKeys struct (label together with keys, maps that carry marks, raw hash tables with tombstones) is covered by the search (directed family) only",
     ]
     r.assumptions += [
         "C17_framing_roundtrip (current reader: whole-line markers, TEST ASSERTS cut off first): every written line is newline-free, not blank, does not end in white space, the first line of a trimmed section does not start with white space (sections_wf) and every written line contains a character other than A-Z and blank (written_shape); both are checked on the real to_uasm output of every generated assembly by the framing tie",
         "C17_framing_roundtrip_pre / _refuted_pre / _mid / C17_test_asserts_lost_pre are records about the models of the readers before /repo 0f91cb1 and 69a2f06",
-        "C17_value_json_roundtrip(_fuel,_exact): only invariants of the term encoding - length(data) = product(shape) (wf_shape, C05), bytes <= 255, binary64 patterns < 2^64 (repr_ok); the result is the value itself except that an empty number array comes back with byte storage (norm); the theorem is about values without label / map keys",
+        "C17_value_json_roundtrip(_fuel,_exact): only invariants of the term encoding - length(data) = product(shape) (wf_shape, C05), bytes <= 255, binary64 patterns < 2^64 (repr_ok); the result is the value itself except that an empty number array comes back with byte storage (norm); C17_label_json_roundtrip / C17_map_json_roundtrip / C17_meta_json_roundtrip add a top-level label or top-level map keys (ArrayRep::Full / ArrayRep::Map) under the same invariants, the map theorem with the premise map1_free (not a box array of shape [1]): that case is an OPEN defect (C17_map1_refuted, known finding C17-one-row-box-map, program `map [5] ≡□[1]`); the value tie evaluates meta_expect on every written value and compares it with what the implementation read back",
         "C17_value_json_refuted_{string,complex,nan,map}_pre are records about the model of the representation before /repo 6da1960, c00f690, 1df8995, 71ff4d9",
         "C17_reread_marks_truthful is about the reader's scan over the comparisons of adjacent rows; that rows are compared as C15 models it is not re-proved here: the harness recomputes the comparisons with Value::cmp and the tie compares the model's marks with the implementation's flags",
         "run behaviour of the re-read assembly is compared on finitely many run-time argument stacks per program (search), not proved for all arguments; runs cut off by the 2 s execution limit are compared on the error only; programs whose original assembly gives different results on two runs (random numbers, clocks) are left out and counted",
@@ -234,7 +234,7 @@ def run(r):
                           "stacks with the safe backend (2 s limit): stack values (bit for bit, shape, element class, label, map-ness, printed form), error text and captured "
                           "stdout must agree.  ties: values<->JSON (generated values of every type incl. arbitrary 64-bit patterns, top-level labels and maps, and hand-written "
                           "texts that exercise the reader's variant choice; model's text = implementation's text, model's reading = implementation's reading, marks of the value "
-                          "read back = recompute_marks); framing (real to_uasm texts and 11 kinds of mutated texts: failure index / section counts equal the model's, premises "
+                          "read back = recompute_marks, value read back = meta_expect i.e. the statement of C17_meta_json_roundtrip); framing (real to_uasm texts and 11 kinds of mutated texts: failure index / section counts equal the model's, premises "
                           "of the framing theorem hold of real texts, from_uasm never panics).  non-trivial = programs whose re-read succeeded")
     r.log("search: %s" % {k: s[k] for k in ("programs", "compiled", "reread_ok", "runs", "run_errors", "with_output", "nondeterministic", "violations")})
 
@@ -310,6 +310,27 @@ def tie_values(r, quick):
     for c in bad_marks[:3]:
         r.violation("uasm-reread-value-marks-wrong", "a value read from its JSON text is malformed or carries untruthful sortedness marks: %s" % c["json"][:200],
                     {"json": c["json"], "marks": c["marks"], "value": c.get("val", {}).get("show")}, theorem="C17_reread_marks_truthful")
+    # what a written value (plain, labelled, or with map keys) reads back as: the statement of C17_meta_json_roundtrip
+    metas = [c for c, _ in items if "val" in c]
+    bad_meta = []
+    for si, ch in enumerate(chunks(metas, 200)):
+        body = ";\n".join("(%s, %s)" % (coq_mval(c["val"]), "None" if "err" in c["back"] else "(Some %s)" % coq_mval(c["back"])) for c in ch)
+        text = ("From Coq Require Import List NArith. Import ListNotations.\nFrom UV Require Import Base.Value Model.Uasm Model.UasmValue Model.UasmPlain.\n"
+                "Definition cases : list (mval * option mval) := [\n%s\n].\n"
+                "Eval vm_compute in (failing_from meta_case_ok 0%%N cases).\n" % body)
+        rc2, o = coq_eval("c17_meta_%d" % si, text, 600)
+        if rc2 != 0:
+            r.broken_obligation("tie-eval-meta", "Coq evaluation of meta shard %d failed" % si, o[-1500:])
+            continue
+        for i in coq_ints(o):
+            bad_meta.append(ch[i])
+    r.coverage["tie_meta_roundtrip"] = {"written_values": len(metas), "labelled": sum(1 for c in metas if c["val"]["label"] is not None),
+                                        "with_map_keys": sum(1 for c in metas if c["val"]["keys"] is not None),
+                                        "one_row_box_maps (no statement)": sum(1 for c in metas if c["val"]["keys"] is not None and c["val"]["v"].startswith("(VBox [1]%nat")),
+                                        "read back otherwise than the theorem states": len(bad_meta)}
+    for c in bad_meta[:3]:
+        r.violation("uasm-value-meta-roundtrip-wrong", "a value written to JSON reads back otherwise than C17_meta_json_roundtrip states: %s" % c["json"][:200],
+                    {"json": c["json"], "value": c["val"], "back": c["back"]}, theorem="C17_meta_json_roundtrip")
     wrote = sum(1 for c, _ in items if "val" in c)
     r.coverage["tie_values"] = {"kind": "C", "cases": len(items), "written_by_serialiser": wrote, "hand_written_texts": len(items) - wrote,
                                 "reader_rejects": sum(1 for c, _ in items if "err" in c["back"]), "mismatches": len(mism), "skipped": skipped}
